@@ -542,3 +542,239 @@ Example C14_gen_example_refinds :
   = [([33; 20], Some 100); ([26; 28], Some 100)] /\
   fst (py_relocate (fun _ _ => Qmake 50 1) self [[32; 20]; [26; 27]] 2) = [[33; 20]; [26; 28]].
 Proof. vm_compute. repeat split; reflexivity. Qed.
+
+(* ================================================================ ROUTE T, part 2
+   (20)-(28): the LINKING STEP of find_link, for the code GENERATED from the current text of
+   trackpy/linking/find_link.py and subnet.py (Gen/findstep.v, by tools/py2coq_findstep.py; vocabulary
+   Model/PyFindstep.v; proofs Proofs/FindstepGen.v, FindstepGen2-4.v, FindstepSafe.v):
+
+     py_FindLinker_init       FindLinker.__init__ (radius, dilation_size, slice_radius, bg_radius, percentile, threshold cache)
+     py_include_lost          Subnets.include_lost
+     py_merge_lost_subnets    Subnets.merge_lost_subnets (subnets within 2*search_range of a lost source merged)
+     py_add_dest_points       Subnets.add_dest_points (only re-found points within range become candidates)
+     py_assign_links          FindLinker.assign_links (shortage -> relocate around the sources' positions -> add_dest_points ->
+                              subnet linker -> ONLY THE CLAIMED re-found points are added to the frame hash, before the
+                              next subnet is handled)
+     py_next_level            FindLinker.next_level
+     py_find_link_iter        find_link_iter: detection, before_link hook, minmass cut on the detected features, the
+                              FindLinker built from the driver's own arguments (percentile included), the frame loop
+
+   The model these are proved EQUAL to is Model/FindLink3.v (find_step_gs / find_link_gs): Model/FindLink.find_step
+   with the two differences the code has: the subnets are those the code builds (code_dict: components of the
+   sources that have a candidate, lost sources as subnets of their own, dictionary merging by key) visited in an
+   order that is a PARAMETER (ord, any order that keeps the source points: ord_ok), and only the claimed relocated
+   points enter the frame.  Full equality with find_step does not hold (find_step keeps every relocated point within
+   range); the safety theorems (1), (6) are therefore proved again for find_step_gs, for ANY partition of the
+   source points into subnets, and restated for the generated functions.
+
+   NOT proved (what is missing): the completeness half (9)-(12) for the generated step (C14_movie_complete for
+   py_find_link_iter).  It needs: under the hypotheses of (9) every relocated point is claimed, so that
+   find_step_gs coincides with find_step on the same subnets, and (9)/(10) generalised from find_groups to any
+   partition (their proofs use nothing else).  Also not translated: after_link / refine, anisotropic ranges, the
+   predictor's positions in hash order (theorems are for predictor = None), Subnets.__init__ / the subnet linker /
+   update_hash / apply_links (route T of C01-C02, named primitives here). *)
+From TP Require Import Model.FindLink3 Model.PyFindstep Gen.findstep Proofs.FindstepGen Proofs.FindstepGen2 Proofs.FindstepGen3
+     Proofs.FindstepSafe Proofs.FindstepGen4.
+
+(* (20) = (3) for the generated __init__: the parameters it derives ARE mk_params (bg_radius with max(radius,
+   separation)), the user's percentile and minmass are stored, the threshold cache starts empty; hence bg_covers. *)
+Theorem C14_gen_init_is_mk_params :
+  forall k sr sep diam mm perc kw,
+    let d := match diam with Some d => d | None => sep end in
+    let o := py_FindLinker_init k sr sep diam mm perc kw in
+    params_of o = mk_params (t_n sr) k (t_v sr) (t_v sep) (t_v d / (2 * k)) mm false true /\
+    i_percentile o = perc /\ i_threshold o = (None, None) /\ i_memory o = kw_memory kw /\ i_minmass o = mm.
+Proof. exact py_FindLinker_init_eq. Qed.
+Print Assumptions C14_gen_init_is_mk_params.
+
+Theorem C14_gen_init_bg_covers :
+  forall k sr sep diam mm perc kw,
+    0 < k -> 0 <= t_v sr -> 0 < t_v sep -> 0 <= t_v (match diam with Some d => d | None => sep end) / (2 * k) ->
+    bg_covers (params_of (py_FindLinker_init k sr sep diam mm perc kw)) /\
+    fixed (params_of (py_FindLinker_init k sr sep diam mm perc kw)) = true.
+Proof. exact init_covers. Qed.
+Print Assumptions C14_gen_init_bg_covers.
+
+(* (21) the generated Subnets methods are the model's dictionary operations *)
+Theorem C14_gen_include_lost :
+  forall s, py_include_lost s = set_sn_includes_lost (set_sn_subnets s (include_lost_c (sn_subnets s) (sn_points s))) true.
+Proof. exact py_include_lost_eq. Qed.
+Print Assumptions C14_gen_include_lost.
+
+Theorem C14_gen_merge_lost_subnets :
+  forall s m, sn_includes_lost s = true ->
+    py_merge_lost_subnets s m = set_sn_subnets s (merge_lost_c m (sn_pos s) (sn_npts s) (sn_subnets s)).
+Proof. exact py_merge_lost_subnets_eq. Qed.
+Print Assumptions C14_gen_merge_lost_subnets.
+
+Theorem C14_merge_lost_unfolded :
+  forall m pos n d,
+    merge_lost_c m pos n d
+    = fold_left (fun d (p : item) =>
+        fold_left (fun d wp => merge_one d (fst p) wp)
+                  (filter (fun j => d2w (mw m) (pos (fst p)) (pos j) <=? 4 * mR2 m) (seq 0 n)) d)   (* within 2*search_range *)
+        (lost_sources d) d.
+Proof. exact (fun _ _ _ _ => eq_refl). Qed.
+
+Theorem C14_gen_add_dest_points :
+  forall s g dp m base,
+    let new := filter (in_range_of s m g) dp in                  (* only the points within range of a source of the subnet *)
+    py_add_dest_points s g dp m base = (map (extend_raw m (sn_pos s) new base) g, number_from base new).
+Proof. exact py_add_dest_points_eq. Qed.
+Print Assumptions C14_gen_add_dest_points.
+
+(* (22) the subnets the code builds are a partition of the source points (every source in exactly one subnet) *)
+Theorem C14_gen_subnets_partition :
+  forall m pred st ds, Permutation (concat (map snd (code_dict m pred st ds))) (raw_items m pred st ds).
+Proof. exact code_dict_partition. Qed.
+Print Assumptions C14_gen_subnets_partition.
+
+(* (23) generated next_level (with assign_links inside) = the model of the code, for every relocate method, every
+   visiting order of the subnet dictionary that keeps the source points, every linker without predictor *)
+Theorem C14_gen_next_level_is_model :
+  forall relocate_m ord (self : flk) coords t im,
+    ord_ok ord -> k_pred self = None ->
+    let m := k_met self in
+    let rel := relocate_m (params_of (k_init self)) im t (i_threshold (k_init self)) (i_percentile (k_init self)) in
+    map_result flk_view (py_next_level relocate_m ord self coords t im)
+    = find_step_gs m (k_mem self) (k_max self) no_pred rel (gen_grouping ord m (k_st self) coords) (k_st self) coords.
+Proof. exact py_next_level_gen. Qed.
+Print Assumptions C14_gen_next_level_is_model.
+
+Theorem C14_ord_unfolded :
+  forall ord, (ord_ok ord <-> forall d, Permutation (concat (ord d)) (concat (map snd d))) /\ ord_ok (map snd).
+Proof. exact (fun ord => conj (iff_refl _) ord_snd_ok). Qed.
+
+(* the claimed-only rule of the model of the code, unfolded: after a subnet with relocated points [new] (numbered
+   from c_next) is solved with links l, exactly the points some link claims are appended to the frame *)
+Theorem C14_claimed_only_unfolded :
+  forall m max_size pred rel st ds a g,
+    group_step_c m max_size pred rel st ds a g =
+    let sh := shortage g in
+    let pos := map (fun it : item => src_pos pred st (fst it)) g in
+    let new := if (0 <? sh)%nat then filter (in_range_any m pos) (rel pos (ds ++ c_added a) sh) else [] in
+    match solve_group max_size (map (ext_item m pred st ds new (c_next a)) g) with
+    | Oversize => Oversize
+    | Ok l =>
+      let mask := map (claimed_b l) (seq (c_next a) (length new)) in
+      Ok {| c_added := c_added a ++ keep mask new;
+            c_ids := c_ids a ++ keep mask (seq (c_next a) (length new));
+            c_next := (c_next a + length new)%nat;
+            c_links := c_links a ++ l |}
+    end.
+Proof. exact (fun _ _ _ _ _ _ _ _ => eq_refl). Qed.
+
+(* (24) = (1) for the model of the code: for EVERY partition gs of the source points into subnets ... *)
+Theorem C14_code_step_labels :
+  forall m mem max_size pred rel gs st ds st' labs D,
+    metric_ok m -> state_ok mem st ->
+    Permutation (concat gs) (raw_items m pred st ds) ->
+    find_step_gs m mem max_size pred rel gs st ds = Ok (st', labs, D) ->
+    state_ok mem st' /\ now st' = S (now st) /\ length labs = length D /\ NoDup labs /\
+    exists added, D = ds ++ added /\
+      forall q, In q added -> exists s, In s (live st) /\ in_range m (pred (now st) s) q.
+Proof. exact find_step_gs_labels. Qed.
+Print Assumptions C14_code_step_labels.
+
+(* ... and for the GENERATED next_level: valid linker state, one label per feature, no label twice, every feature it
+   added within search_range of a live source *)
+Theorem C14_gen_step_labels :
+  forall relocate_m ord (self self' : flk) coords t im,
+    ord_ok ord -> k_pred self = None -> metric_ok (k_met self) -> state_ok (k_mem self) (k_st self) ->
+    py_next_level relocate_m ord self coords t im = Ok self' ->
+    state_ok (k_mem self) (k_st self') /\ now (k_st self') = S (now (k_st self)) /\
+    length (k_labs self') = length (hash_points self') /\ NoDup (k_labs self') /\
+    exists added, hash_points self' = coords ++ added /\
+      forall q, In q added -> exists s, In s (live (k_st self)) /\ in_range (k_met self) (s_pos s) q.
+Proof. exact gen_step_labels. Qed.
+Print Assumptions C14_gen_step_labels.
+
+(* (25) = (6) for the model of the code, any grouping that partitions the source points *)
+Theorem C14_code_movie_safe :
+  forall m mem max_size n k S Good (grp : grouping),
+    metric_ok m -> 0 < S ->
+    (forall st ds, Permutation (concat (grp st ds)) (raw_items m no_pred st ds)) ->
+    forall f0 rest out,
+      Forall (fun p => length p = n) f0 ->
+      Forall (input_ok n k S Good) rest ->
+      find_link_gs m mem max_size no_pred grp f0 rest = Ok out ->
+      exists labs0 out', out = (labs0, f0) :: out' /\ length labs0 = length f0 /\ NoDup labs0 /\
+                         run_ok m k S Good [f0] rest out'.
+Proof. exact find_link_gs_safe. Qed.
+Print Assumptions C14_code_movie_safe.
+
+(* (26) the generated driver IS the model of the code run on: the detections at the user's separation / percentile /
+   margin after before_link and the minmass cut; the parameters the generated __init__ derives from the driver's
+   arguments; every frame's oracle = the relocate method with THE USER'S percentile and an empty threshold cache. *)
+Theorem C14_gen_driver_is_model :
+  forall relocate_m ord gd ch k max_size r0 rest sr sep diam perc mm pf bl kw,
+    ord_ok ord ->
+    let ndim := py_len (np_shape (r_image r0)) in
+    let sr' := validate_tup sr ndim in
+    let sep' := validate_tup sep ndim in
+    let d' := match diam with None => sep' | Some d => validate_tup d ndim end in
+    let pf' := match pf with None => identity_proc | Some f => f end in
+    let dets := detections gd ch k sep' d' perc mm pf' bl in
+    let init0 := py_FindLinker_init k sr' sep' (Some d') mm perc kw in
+    margins_cover (np_shape (r_image r0)) (tup_map (fun d => num_half_int k d) d') = false ->
+    py_find_link_iter relocate_m ord gd ch k max_size (r0, rest) sr sep diam perc mm pf bl kw
+    = Some (find_link_gs (fmet (params_of init0)) (kw_memory kw) max_size no_pred (gen_grouping ord (fmet (params_of init0)))
+              (dets r0) (map (frame_of relocate_m init0 dets pf') rest)).
+Proof. exact py_find_link_iter_model. Qed.
+Print Assumptions C14_gen_driver_is_model.
+
+Theorem C14_driver_frames_unfolded :
+  forall relocate_m (init0 : flinit) dets pf gd ch k sep diam perc mm bl (fr : rframe),
+    frame_of relocate_m init0 dets pf fr
+    = (dets fr, relocate_m (params_of init0) (pf (r_image fr)) (r_no fr) (i_threshold init0) (i_percentile init0)) /\
+    detections gd ch k sep diam perc mm pf bl fr
+    = (let radius := tup_map (fun d => num_half_int k d) diam in
+       let c0 := gd (pf (r_image fr)) sep perc radius in
+       let c1 := match bl with Some f => f c0 fr (pf (r_image fr)) | None => c0 end in
+       mask_select (vec_ge_minmass (extra_mass (ch c1 (r_image fr) radius)) mm) c1).
+Proof. exact (fun _ _ _ _ _ _ _ _ _ _ _ _ _ => conj eq_refl eq_refl). Qed.
+
+(* (27) = C14_movie_safe for the GENERATED code end to end (generated find_link_iter, generated __init__, generated
+   next_level / assign_links / Subnets methods, generated relocate of (14)-(19) as the relocate method): every output
+   frame has one label per feature, no label twice, features pairwise at least separation apart, added features
+   outside the margin and within search_range of a feature of a preceding output frame. *)
+Theorem C14_gen_driver_movie_safe :
+  forall npp ord gd ch k max_size r0 rest sr sep diam perc mm pf bl kw sh out,
+    ord_ok ord ->
+    let ndim := py_len (np_shape (r_image r0)) in
+    let sr' := validate_tup sr ndim in
+    let sep' := validate_tup sep ndim in
+    let d' := match diam with None => sep' | Some d => validate_tup d ndim end in
+    let pf' := match pf with None => identity_proc | Some f => f end in
+    let dets := detections gd ch k sep' d' perc mm pf' bl in
+    let P := params_of (py_FindLinker_init k sr' sep' (Some d') mm perc kw) in
+    0 < k -> 0 <= t_v sr -> 0 < t_v sep -> 0 <= t_v d' / (2 * k) -> metric_ok (fmet P) ->
+    Forall (fun p => length p = length sh) (dets r0) ->
+    Forall (dframe_ok npp P perc sh pf' dets) rest ->
+    py_find_link_iter (gen_reloc npp) ord gd ch k max_size (r0, rest) sr sep diam perc mm pf bl kw = Some (Ok out) ->
+    exists labs0 out', out = (labs0, dets r0) :: out' /\ length labs0 = length (dets r0) /\ NoDup labs0 /\
+      run_ok (fmet P) (fk P) (sepk P) (off_margin sh (rad P)) [dets r0]
+             (map (frame_of (gen_reloc npp) (py_FindLinker_init k sr' sep' (Some d') mm perc kw) dets pf') rest) out'.
+Proof. exact gen_driver_safe. Qed.
+Print Assumptions C14_gen_driver_movie_safe.
+
+Theorem C14_dframe_unfolded :
+  forall npp P perc sh pf dets fr,
+    dframe_ok npp P perc sh pf dets fr <->
+    (shape (pf (r_image fr)) = sh /\
+     (forall t0, frame_thr npp (pf (r_image fr)) (r_no fr) (None, None) perc = Some t0 -> (0 <= t0)%Q) /\
+     separated (fk P) (sepk P) (dets fr) /\ Forall (fun p => length p = length sh) (dets fr)).
+Proof. exact (fun _ _ _ _ _ _ _ => iff_refl _). Qed.
+
+(* (28) non-vacuity: the generated driver, run inside Coq on the example of (13b) (two frames; detection returns
+   the two features in the first frame and nothing in the second; np.percentile answering 50): both withheld
+   features are re-found, claimed and keep their labels *)
+Example C14_gen_driver_example :
+  let im0 := spots 40 40 [(32, 20, 100); (26, 27, 100)] in
+  let im1 := spots 40 40 [(33, 20, 100); (26, 28, 100)] in
+  let gd := fun (im : image) (_ : tup) (_ : Q) (_ : tup) => if pix im [32; 20] =? 100 then [[32; 20]; [26; 27]] else [] in
+  let ch := fun (c : list pt) (_ : image) (_ : tup) => map (fun _ => Some 100) c in
+  py_find_link_iter (gen_reloc (fun _ _ => Qmake 50 1)) (map snd) gd ch 1 30
+    (mk_rframe im0 0, [mk_rframe im1 1]) (mk_tup 5 2) (mk_tup 9 2) None (Qmake 64 1) 0 None None (mk_kw 0 false)
+  = Some (Ok [([0; 1]%nat, [[32; 20]; [26; 27]]); ([0; 1]%nat, [[33; 20]; [26; 28]])]).
+Proof. vm_compute. reflexivity. Qed.
